@@ -76,6 +76,21 @@ def limb_pattern(rng, bits):
     return C.from_limbs(limbs) % m
 
 
+def sparse_pair(rng, bits):
+    """both operands with zero low limbs AND interior zero limbs (the accumulator window of addmul
+    runs out at different rows depending on all of them; seeded change c02_E)"""
+    n = C.nlimbs(bits)
+    m = 1 << bits
+
+    def one():
+        z = rng.randrange(0, n)
+        limbs = [0] * z + [(0 if rng.random() < 0.4 else (C.rand_limb(rng) or 1)) for _ in range(n - z)]
+        if not any(limbs):
+            limbs[rng.randrange(n)] = 1
+        return C.from_limbs(limbs) % m
+    return one(), one()
+
+
 def operand(rng, bits):
     r = rng.random()
     if r < 0.5:
@@ -191,6 +206,11 @@ def gen(rng, tier):
             for f in BIN2:
                 a, b = pair(rng, bits)
                 out.append("%s %d %s %s" % (f, bits, C.tokU(bits, a), C.tokU(bits, b)))
+        if C.nlimbs(bits) >= 3:
+            for _ in range(3 if big else (10 if quick else 60)):
+                a, b = sparse_pair(rng, bits)
+                for f in rng.sample(BIN2, 2):
+                    out.append("%s %d %s %s" % (f, bits, C.tokU(bits, a), C.tokU(bits, b)))
         for shape in range(6):
             for _ in range(1 if quick else 4):
                 a, b = pair(rng, bits)
